@@ -16,7 +16,7 @@ from .props_a import ALL_VARIANTS, RunCase, floats, random_run
 # ------------------------------------------------------------------------------ file rendering
 
 BIG_LABELS = [2 ** 53, 2 ** 53 + 1, 2 ** 53 + 2, 2 ** 53 + 3, 1234567890123456789, 1234567890123456790,
-              2 ** 63 - 1, 2 ** 63, 2 ** 63 + 1, 2 ** 64 - 2, 2 ** 64 - 1, 7]
+              2 ** 63 - 1, 2 ** 63, 2 ** 63 + 1, 2 ** 64 - 2, 2 ** 64 - 1, 7, 2 ** 32 + 7, 5 * 2 ** 32 + 7, 101, 2 ** 32 + 101]
 
 
 def render_adjacency(rng, recs, style=None):
@@ -169,7 +169,7 @@ class C13(Check):
                 opts["maxit"] = rng.choice([1, 5, 11, 21, 40])
             if rng.random() < 0.6:
                 opts["y"] = rng.choice([1, 1, 2, 3])
-            opts["s"] = rng.choice([rng.randint(0, 2 ** 31 - 1)] * 6 + [0, 1, 2 ** 31 - 1]) if k >= 3 else [0, 1, 2 ** 31 - 1][k]
+            opts["s"] = rng.choice([rng.randint(0, 2 ** 31 - 1)] * 6 + [0, 1, 2 ** 31 - 1, -1, -7, -2 ** 31]) if k >= 5 else [0, 1, 2 ** 31 - 1, -7, -1][k]
             if rng.random() < 0.5:
                 opts["o"] = rng.choice(["out", "results", "res_dir"])
             adjname = rng.choice(["adjacency.dat", "adj.txt"])
@@ -268,13 +268,18 @@ class C13(Check):
             if bad:
                 self.violate("cli-option-or-reader", "; ".join(bad), replay)
                 continue
-            # model agreement (correspondence)
-            if m.get("exit") != ["run"]:
+            # model agreement (correspondence).  A negative seed is outside the model's domain (its `stoi` is the decimal
+            # naturals; std::stoi also reads a sign and the generator takes the value modulo 2^32): such command lines are
+            # judged on the implementation side only - the call record above, the files against the library below
+            outside = c["opts"]["s"] < 0
+            if outside:
+                self.dist("outside the model's domain: negative seed")
+            elif m.get("exit") != ["run"]:
                 self.corr_broken.append(("cli", c["cid"], "exit", "model says %s, binary ran" % m.get("exit"), " ".join(c["argv"])))
             else:
                 for k2 in ("dir", "assort", "initfile", "K", "r", "maxit", "nconv", "seed"):
                     mv = m[k2]
-                    if len(mv) == 1 and mv[0].isdigit():
+                    if len(mv) == 1 and mv[0].lstrip("-").isdigit():
                         mv = [str(int(mv[0]))]      # the model keeps the seed as the option's text ("007"): compare the number
                     if mv != [str(got[k2])]:
                         self.corr_broken.append(("cli", c["cid"], k2, "impl=%s model=%s" % (got[k2], m[k2]), " ".join(c["argv"])))
@@ -283,7 +288,8 @@ class C13(Check):
                 if not ref.vec_close(floats(m["aff"]), call["affinity"], 1e-12, 0):
                     self.corr_broken.append(("cli", c["cid"], "aff", "impl=%s model=%s" % (call["affinity"][:6], floats(m["aff"])[:6]), " ".join(c["argv"])))
             # ---- (1b) the files the binary wrote vs the files of the model's `cliMain`
-            self.model_files(c, r, mrun.get(c["cid"], {}))
+            if not outside:
+                self.model_files(c, r, mrun.get(c["cid"], {}))
             # ---- (2) library run with an independently built call
             if c["wfile"]:
                 aff = []
